@@ -1181,6 +1181,10 @@ struct LocCase {
     /// each is normalised with its own min/default/max and its own segment map
     #[serde(default)]
     tags: Vec<u8>,
+    /// caller-supplied output buffers for the slice-writing APIs: (length 0..=axes+3, fill kind: 0 constant, 1 all -1.0,
+    /// 2 varying per index, 3 the location with every tag set to +inf, i.e. a previous, different result)
+    #[serde(default)]
+    bufs: Vec<(u8, u8)>,
 }
 
 fn loc_strategy() -> impl Strategy<Value = LocCase> {
@@ -1190,8 +1194,9 @@ fn loc_strategy() -> impl Strategy<Value = LocCase> {
             prop_oneof![1 => Just(None), 3 => proptest::collection::vec(segmap_strategy(), n).prop_map(Some)],
             proptest::collection::vec((any::<u32>(), userval_strategy()), 0..8),
             prop_oneof![2 => Just(vec![]), 3 => proptest::collection::vec(0u8..3, n), 1 => proptest::collection::vec(0u8..2, n)],
+            proptest::collection::vec((prop_oneof![3 => Just(n as u8), 2 => 0u8..=(n as u8 + 3)], 0u8..4), 1..3),
         )
-            .prop_map(|(axes, avar, settings, tags)| LocCase { axes, avar, settings, tags })
+            .prop_map(|(axes, avar, settings, tags, bufs)| LocCase { axes, avar, settings, tags, bufs })
     })
 }
 
@@ -1333,6 +1338,43 @@ fn test_loc(c: &LocCase, stats: &Stats) -> CaseResult {
             }
         }
         stats.evals(1);
+    }
+    // slice-writing APIs with a dirty caller-supplied buffer: the result is independent of the previous content; documented:
+    // axes without a setting are 0, a shorter buffer ignores the out-of-bounds axes, excess entries are filled with zeros
+    for (len, kind) in &c.bufs {
+        let len = (*len as usize).min(n + 3);
+        let previous: Vec<i16> = match kind {
+            0 => vec![0x1234; len],
+            1 => vec![-16384; len],
+            2 => (0..len).map(|k| 1000 + 77 * k as i16).collect(),
+            _ => {
+                let all_max: Vec<(Tag, f32)> = (0..n).map(|i| (Tag::new(&axis_tag(tag_id(i))), f32::INFINITY)).collect();
+                let prev = axes.location(all_max);
+                (0..len).map(|k| prev.coords().get(k).map(|c| c.to_bits()).filter(|b| *b != 0).unwrap_or(-8192)).collect()
+            }
+        };
+        let want: Vec<i16> = (0..len).map(|k| got.get(k).copied().unwrap_or(0)).collect();
+        let mut buf: Vec<F2Dot14> = previous.iter().map(|b| F2Dot14::from_bits(*b)).collect();
+        axes.location_to_slice(settings.iter().copied(), &mut buf);
+        let out: Vec<i16> = buf.iter().map(|c| c.to_bits()).collect();
+        if out != want {
+            return Err(fail("location_to_slice-dirty-buffer", format!("{n} axis records (tags {:?}), settings {settings:?}: location_to_slice into a buffer holding {previous:?} gives {out:?}, location() gives {got:?} (expected {want:?})", (0..n).map(tag_id).collect::<Vec<_>>())));
+        }
+        let mut buf: Vec<F2Dot14> = previous.iter().map(|b| F2Dot14::from_bits(*b)).collect();
+        fvar.user_to_normalized(avar.as_ref(), settings.iter().map(|(t, v)| (*t, Fixed::from_f64(*v as f64))), &mut buf);
+        let out: Vec<i16> = buf.iter().map(|c| c.to_bits()).collect();
+        if out != want {
+            return Err(fail("user_to_normalized-dirty-buffer", format!("{n} axis records (tags {:?}), settings {settings:?}: user_to_normalized into a buffer holding {previous:?} gives {out:?}, expected {want:?}", (0..n).map(tag_id).collect::<Vec<_>>())));
+        }
+        stats.evals(2);
+        stats.class(match len.cmp(&n) {
+            std::cmp::Ordering::Less => "loc:dirty-buffer-shorter",
+            std::cmp::Ordering::Equal => "loc:dirty-buffer-exact",
+            std::cmp::Ordering::Greater => "loc:dirty-buffer-longer",
+        });
+        if last.iter().take(len).any(|l| l.is_none()) {
+            stats.class("loc:dirty-buffer-with-omitted-axis");
+        }
     }
     stats.class(if c.avar.is_some() { "loc:avar" } else { "loc:no-avar" });
     if (0..n).any(|i| (0..i).any(|j| tag_id(i) == tag_id(j))) {
@@ -1661,7 +1703,7 @@ fn main() {
         compute_delta / compute_float_delta, and every stored region through compute_scalar / compute_scalar_f32; locations have the axis count or any length 0..=axes+2 (missing axes = 0, extra ignored); fixed and float paths are also compared with each other. Non-trivial: the built store has >= 2 subtables, or fewer regions than supplied, or fewer rows than supplied; distinct by hash of (mode, spec). \
         normalize: 1..3 axes (typical, integer, fractional, equalities, 1-ulp spans, one-sided spans up to the 16.16 range) x 1..23 user values (min/default/max +-2 ulp, interior, raw, huge); non-trivial: a non-degenerate axis and >= 2 values. \
         avar: 1..3 valid segment maps (0 or 3..11 points) queried at every point, +-2 ulp, between points; non-trivial: a map with > 3 points. \
-        location: Kit font with fvar of 1..5 axis records (tags distinct or shared by 2..5 records, each record with its own range and segment map) (+ avar) and 0..7 settings (unknown tags, repeated tags - last wins, applied to every record with the tag -, omitted axes, +-inf); non-trivial: a set axis under an avar map with > 3 points. \
+        location: Kit font with fvar of 1..5 axis records (tags distinct or shared by 2..5 records, each record with its own range and segment map) (+ avar) and 0..7 settings (unknown tags, repeated tags - last wins, applied to every record with the tag -, omitted axes, +-inf), plus location_to_slice / user_to_normalized into 1..2 dirty caller buffers of length 0..=axes+3 (constant, varying or a previous location's content); non-trivial: a set axis under an avar map with > 3 points. \
         metrics: Kit font with hmtx (numberOfHMetrics in 1..=numGlyphs, numGlyphs 1..40) + hand-assembled HVAR around the builder's store in 4 modes (implicit/no maps, advance map, advance+lsb maps, implicit+lsb map; \
         hand-encoded DeltaSetIndexMap formats 0/1, entry sizes 1..4, map counts < numGlyphs), every glyph id and ids >= numGlyphs at 1..3 locations, unscaled and one ppem; non-trivial: >= 2 glyphs and some metric differs from its base value.");
     ctx.assume("exact model: rational tent scalars and sums in i128; fixed-point bound 0.5 + sum |delta| * (fractional axes) * 2^-17 (one 16.16 rounding per axis, one final rounding); float bound 2^-23 relative per rounding step");
